@@ -643,6 +643,7 @@ def drive(ctx, cases):
 
 
 def run(ctx):
+    ctx.liveness("TabularWrite", unfair_control=not ctx.quick)      # termination under weak fairness (TabularWrite_live.cfg)
     import time
     rng = np.random.default_rng(ctx.seed)
     phase = ctx.cov.setdefault("phase_s", {})
